@@ -39,6 +39,19 @@ type SpecEnv struct {
 	pkg      *types.Package
 	inOld    bool
 	ssaPkg   *ssa.Package
+	qdepth   int
+}
+
+// loaded records the heap invariant for a reference-typed value read from the heap by a specification
+// (every stored reference is below the allocation counter of that state).
+func (env *SpecEnv) loaded(t Term, typ types.Type) {
+	if env.qdepth > 0 || env.st == nil || env.st.top.T == nil {
+		return
+	}
+	switch typ.Underlying().(type) {
+	case *types.Slice, *types.Pointer, *types.Map, *types.Interface:
+		env.vc.assumeLoaded(env.st, t, typ)
+	}
 }
 
 func (env *SpecEnv) child() *SpecEnv {
@@ -147,6 +160,7 @@ func (env *SpecEnv) eval(e *SExpr) SVal {
 		return env.binary(e)
 	case "forall", "exists":
 		ne := env.child()
+		ne.qdepth = env.qdepth + 1
 		var bs []string
 		var guards []Term
 		for _, b := range e.Binders {
@@ -443,6 +457,7 @@ func (env *SpecEnv) fieldOf(base SVal, fname string) SVal {
 		}
 		np := base.P.extend(PathElem{Field: idx, Cont: st}, ft)
 		val := vc.loadPlace(env.st, np)
+		env.loaded(val, ft)
 		if isPointer(ft) {
 			return vc.svalOfLoaded(val, ft)
 		}
@@ -1079,6 +1094,23 @@ func (env *SpecEnv) callExpr(e *SExpr) SVal {
 			env.fail("fresh() needs a pre-state")
 		}
 		return SVal{T: mk(fmt.Sprintf("(>= %s %s)", r.S, env.old.top.S), sortBool)}
+	case "unchanged":
+		// unchanged(s, lo, hi): elements lo..hi-1 of s hold the same values as in the pre-state
+		// (quantified over the absolute array position so that callers can instantiate it)
+		if env.old == nil || len(e.Args) != 3 {
+			env.fail("unchanged(s, lo, hi) needs a pre-state")
+		}
+		sv := env.eval(e.Args[0])
+		now := env.view(sv)
+		oe := *env
+		oe.st = env.old
+		before := oe.view(sv)
+		lo, hi := env.idxTerm(env.eval(e.Args[1])), env.idxTerm(env.eval(e.Args[2]))
+		j := mk("|q!j|", vc.idxSort())
+		rng := tAnd(vc.idxLe(vc.idxAdd(now.Off, lo), j), vc.idxLt(j, vc.idxAdd(now.Off, hi)))
+		q := fmt.Sprintf("(forall ((|q!j| %s)) (! (=> %s (= (select %s |q!j|) (select %s |q!j|))) :pattern ((select %s |q!j|))))",
+			vc.idxSort().Name, rng.S, now.Arr.S, before.Arr.S, now.Arr.S)
+		return SVal{T: mk(q, sortBool)}
 	case "seqeq":
 		a, b := env.view(env.eval(e.Args[0])), env.view(env.eval(e.Args[1]))
 		q := fmt.Sprintf("(and (= %s %s) (forall ((|q!k| %s)) (=> %s (= (select %s %s) (select %s %s)))))",
